@@ -23,21 +23,12 @@ def collect_checks():
 
 
 NOT_APPLICABLE = {
-    "C05": "not built yet in this round (planned: crash model of the output stage)",
-    "C06": "not built yet in this round (planned: environment inventory + permutation invariance)",
-    "C07": "not built yet in this round",
-    "C08": "not built yet in this round",
-    "C09": "not built yet in this round",
-    "C10": "not built yet in this round",
-    "C11": "not built yet in this round",
-    "C12": "not built yet in this round",
-    "C13": "not built yet in this round",
-    "C14": "not built yet in this round",
-    "C15": "not built yet in this round",
-    "C16": "not built yet in this round",
-    "C17": "not built yet in this round",
-    "C19": "not built yet in this round",
-    "C20": "not built yet in this round",
+    "C07": "check under construction in this round (coordinator)",
+    "C08": "check under construction in this round (builder sm)",
+    "C09": "check under construction in this round (builder sm)",
+    "C10": "check under construction in this round (builder sm)",
+    "C13": "check under construction in this round (builder conn)",
+    "C14": "check under construction in this round (builder conn)",
 }
 
 ENGINES = [
